@@ -107,8 +107,8 @@ FUNCS = ['sin', 'cos', 'tan', 'asin', 'acos', 'atan', 'exp', 'log', 'sqrt', 'abs
 
 
 class Gen:
-    def __init__(self, rng, keys, pkey=0.6, reuse=0.3):
-        self.rng, self.keys, self.pkey, self.reuse = rng, keys, pkey, reuse
+    def __init__(self, rng, keys, pkey=0.6, reuse=0.3, pstruct=0.2):
+        self.rng, self.keys, self.pkey, self.reuse, self.pstruct = rng, keys, pkey, reuse, pstruct
         self.nleaf = 0
         self.nid = 0
         self.pool = {}
@@ -137,8 +137,58 @@ class Gen:
             self.share(node, t, shape)
         return node
 
-    def fresh_leaf(self, t, shape):
+    def structured_item(self, t):
+        """edge-valued items: exactly unit length, axis-aligned, equal components, integer-valued, norms exactly
+        1, 2, 0.5; matrices: identity-like / permutation / integer; scalars: 1, 2, 0.5, -1, multiples of pi/2"""
         rng = self.rng
+        if t == 'S':
+            return [rng.choice([1.0, 2.0, 0.5, -1.0, -2.0, 0.25, 3.0, np.pi / 2, np.pi, -np.pi / 2, 0.75])]
+        if t in ('V2', 'V3', 'Q'):
+            n = len(ITEM[t]) and ITEM[t][0]
+            kind = rng.choice(['axis', 'axis', 'pyth', 'equal', 'int'])
+            if kind == 'axis':
+                v = [0.0] * n; v[rng.randrange(n)] = rng.choice([1.0, -1.0, 1.0, 2.0, 0.5, -2.0])
+                return v
+            if kind == 'pyth':
+                base = {2: [[0.6, 0.8], [0.8, -0.6], [-0.6, 0.8]], 3: [[0.6, 0.8, 0.0], [0.0, 0.6, -0.8], [0.8, 0.0, 0.6], [1 / 3, 2 / 3, 2 / 3], [2 / 3, -2 / 3, 1 / 3]],
+                        4: [[0.5, 0.5, 0.5, 0.5], [0.6, 0.0, 0.8, 0.0], [0.5, -0.5, 0.5, -0.5], [0.0, 0.6, 0.0, -0.8]]}[n]
+                v = list(rng.choice(base)); sc = rng.choice([1.0, 1.0, 1.0, 2.0, 0.5])
+                return [x * sc for x in v]
+            if kind == 'equal':
+                c = rng.choice([1.0, -1.0, 2.0, 0.5])
+                return [c] * n
+            return [float(rng.choice([-2, -1, 1, 2, 3])) for _ in range(n)]
+        n = ITEM[t][0]
+        kind = rng.choice(['ident', 'perm', 'int', 'diag'])
+        m = np.zeros((n, n))
+        if kind == 'ident':
+            m = np.eye(n) * rng.choice([1.0, 1.0, 2.0, -1.0, 0.5])
+        elif kind == 'perm':
+            perm = list(range(n)); rng.shuffle(perm)
+            for i, j in enumerate(perm):
+                m[i, j] = rng.choice([1.0, -1.0])
+        elif kind == 'diag':
+            for i in range(n):
+                m[i, i] = rng.choice([1.0, 2.0, 0.5, -1.0, 3.0])
+        else:
+            m = np.array([[float(rng.choice([-2, -1, 0, 1, 2, 3])) for _ in range(n)] for _ in range(n)])
+        return [float(x) for x in m.reshape(-1)]
+
+    def fresh_leaf(self, t, shape, structured=None):
+        rng = self.rng
+        if structured is None:
+            structured = rng.random() < self.pstruct
+        if structured:
+            ne = int(np.prod(shape, dtype=int))
+            vals = [x for _ in range(ne) for x in self.structured_item(t)]
+            n = len(vals)
+            derivs = {}
+            for k, den in self.keys.items():
+                if rng.random() < self.pkey:
+                    nd = int(np.prod(den, dtype=int))
+                    derivs[k] = [round(rng.uniform(-2, 2), 4) for _ in range(n * nd)]     # generic direction
+            self.nleaf += 1
+            return {'op': 'leaf', 't': t, 'shape': list(shape), 'vals': vals, 'derivs': derivs}
         item = ITEM[t]
         n = int(np.prod(shape, dtype=int)) * int(np.prod(item, dtype=int))
         if t == 'S' and rng.random() < 0.5:
@@ -251,21 +301,39 @@ class Gen:
                 args.append(self.node(at, shape, depth - 1, False))
         return {'op': name, 't': t, 'p': rparams(name, ats, rng), 'args': args}
 
+    def reduce_spec(self, shape, lens=(2, 3)):
+        """child shape and an axis argument of sum()/mean() that reduces it to `shape`: None, +-int, tuple or list
+        of axes with negative and mixed-sign entries"""
+        rng = self.rng
+        shape = tuple(shape)
+        m = rng.choice([1, 1, 2]) if len(shape) <= 1 else 1
+        if len(shape) + m > 3:
+            return None, None
+        child = list(shape)
+        for _ in range(m):
+            child.insert(rng.randrange(len(child) + 1), None)
+        axes = [i for i, c in enumerate(child) if c is None]
+        child = tuple(rng.choice(lens) if c is None else c for c in child)
+        r = len(child)
+        signed = [a if rng.random() < 0.5 else a - r for a in axes]
+        form = rng.choice(['int', 'tuple', 'list']) if m == 1 else rng.choice(['tuple', 'list'])
+        if len(axes) == r and rng.random() < 0.3:
+            return child, {'axis': None}
+        if form == 'int':
+            return child, {'axis': signed[0]}
+        rng.shuffle(signed)
+        return child, {'axis': signed, 'axform': form}
+
     def structural(self, t, shape, depth):
         rng = self.rng
         kind = rng.choice(['sum', 'mean', 'getitem', 'getitem', 'reshape', 'swap_axes', 'stack', 'flatten', 'bcast'])
         if kind in ('sum', 'mean'):
             if t == 'R3':
                 return None          # Matrix3.sum()/mean() are unsupported by design (TypeError)
-            k = rng.randrange(len(shape) + 1)
-            n = rng.choice([2, 3])
-            child = shape[:k] + (n,) + shape[k:]
-            if len(child) > 3:
+            child, p = self.reduce_spec(shape)
+            if child is None:
                 return None
-            ax = k if rng.random() < 0.6 else k - len(child)
-            if len(child) == 1 and rng.random() < 0.4:
-                ax = None
-            return {'op': kind, 't': t, 'p': {'axis': ax}, 'args': [self.node(t, child, depth - 1, True)]}
+            return {'op': kind, 't': t, 'p': p, 'args': [self.node(t, child, depth - 1, True)]}
         if kind == 'getitem':
             if len(shape) >= 3:
                 return None
@@ -523,6 +591,43 @@ def gen_cases(rng, tier):
                     if smooth(tree, keys)[0]:
                         cases.append(mk_case(tree, keys, kind='reuse:%s:%s' % (form, f)))
                         break
+    # 2d. structured edge-valued operands (exactly unit vectors, axis-aligned, equal components, integers, norms
+    #     1/2/0.5, identity/permutation matrices, angles at multiples of pi/2) with GENERIC derivatives, for every
+    #     operation that has a non-scalar argument or result
+    for name, spec in sorted(OPS.items()):
+        for (ats, rt) in spec['sigs']:
+            if all(a == 'S' for a in ats) and rt == 'S':
+                continue
+            for rep in range(6 if thorough else 3):
+                for _try in range(40):
+                    keys = rng.choice(KEYSETS)
+                    g = Gen(rng, keys, 0.8, reuse=0, pstruct=1.0)
+                    shape = rng.choice([(), (), (2,), (3,)])
+                    tree = {'op': name, 't': rt, 'p': rparams(name, ats, rng),
+                            'args': [g.node(at, shape, 0, i == 0) for i, at in enumerate(ats)]}
+                    if rep % 3 == 2:       # one level of composition on top
+                        cands = [(n2, a2) for (n2, a2) in PROD.get(rt, []) if rt in a2 and n2 not in ('twovec',)]
+                        for (n2, a2) in rng.sample(cands, min(len(cands), 1)):
+                            tree = {'op': n2, 't': rt, 'p': rparams(n2, a2, rng),
+                                    'args': [tree if (a == rt and k == a2.index(rt)) else g.node(a, shape, 0, False) for k, a in enumerate(a2)]}
+                    if smooth(tree, keys)[0]:
+                        cases.append(mk_case(tree, keys, kind='edge:' + name))
+                        break
+    # 2e. every axis form of sum()/mean(): None, +-int, tuples and lists with negative / mixed-sign entries, on operands of
+    #     rank 1-3 whose leading axis lengths include the keys' denominator lengths
+    for kind in ('sum', 'mean'):
+        for keys in ({'p': [2]}, {'q': [3]}, {'t': [], 'p': [2]}, {'t': []}):
+            dl = [d[0] for d in keys.values() if d] or [2]
+            for t in ('S', 'V3', 'M2'):
+                for rep in range(10 if thorough else 4):
+                    g = Gen(rng, keys, 0.9, reuse=0, pstruct=0.0)
+                    out = rng.choice([(), (dl[0],), (3,), (2,)])
+                    child, p = g.reduce_spec(out, lens=(dl[0], dl[0], 2, 3))
+                    if child is None:
+                        continue
+                    tree = {'op': kind, 't': t, 'p': p, 'args': [g.fresh_leaf(t, child)]}
+                    if smooth(tree, keys)[0]:
+                        cases.append(mk_case(tree, keys, kind='axes:' + kind))
     # 2c. operands that have a denominator themselves ((2,) or (3,)); key `t` with denominator ()
     for t in ['S', 'V2', 'V3', 'M2', 'M3', 'Q']:
         for rep in range(40 if thorough else 12):
